@@ -212,7 +212,7 @@ def run(ctx):
                                                       if k not in stats]}
     g = [i for i, m in enumerate(meta) if m["kind"] == "generated"]
     ctx.cov["samples"] = [{"events": [U.ev_to_json(e) for e in cases[i][1][:4]], "impl": res[i]["steps"][:4], "secret": secrets[i]} for i in g[:3]]
-    ctx.cov["source_ties"] = [C.source_tie("whad/ble/stack/gatt/__init__.py", 1200, 2520),
+    ctx.cov["source_ties"] = [C.source_tie("whad/ble/stack/gatt/__init__.py", 1205, 2642),
                               C.source_tie("whad/ble/profile/characteristic.py", 508, 525),
                               C.source_tie("whad/ble/profile/characteristic.py", 631, 770),
                               C.source_tie("whad/ble/stack/llm/__init__.py", 230, 280),
